@@ -13,20 +13,20 @@ import (
 )
 
 type Term struct {
-	Op   string  // smt operator, or "" for leaf
-	Args []*Term // operands
-	W    int     // 0 = Bool, >0 = BitVec width, -1 = other sort
-	Sort string  // for W == -1
-	Leaf string  // symbol name for leaves
-	C    *big.Int
-	s    string // cached rendering
-	Deps []*Term // raw leaves: symbols mentioned inside
-	Def  *Term   // leaf only: this symbol abbreviates Def (rendered as define-fun); see name()
-	QDef *Term   // leaf only: Bool symbol defined as equivalent to this quantified formula (asserted as an axiom)
-	hasBound bool // mentions a quantifier-bound variable (never abbreviated)
-	hasQ     bool // contains a quantifier (never abbreviated, so that "(forall " stays visible)
+	Op       string  // smt operator, or "" for leaf
+	Args     []*Term // operands
+	W        int     // 0 = Bool, >0 = BitVec width, -1 = other sort
+	Sort     string  // for W == -1
+	Leaf     string  // symbol name for leaves
+	C        *big.Int
+	s        string      // cached rendering
+	Deps     []*Term     // raw leaves: symbols mentioned inside
+	Def      *Term       // leaf only: this symbol abbreviates Def (rendered as define-fun); see name()
+	QDef     *Term       // leaf only: Bool symbol defined as equivalent to this quantified formula (asserted as an axiom)
+	hasBound bool        // mentions a quantifier-bound variable (never abbreviated)
+	hasQ     bool        // contains a quantifier (never abbreviated, so that "(forall " stays visible)
 	QReads   []traceRead // forall nested in another quantifier: the memory its body reads (see liftInner)
-	Pre      bool // leaf: a reference known to be pre-existing (< alloc0), hence distinct from every allocation of this call
+	Pre      bool        // leaf: a reference known to be pre-existing (< alloc0), hence distinct from every allocation of this call
 }
 
 // Large terms are abbreviated by fresh symbols defined with define-fun: in-memory terms are DAGs, and
@@ -99,12 +99,12 @@ func Bool(b bool) *Term {
 	}
 	return tFalse
 }
-func Sym(name string, w int) *Term          { return &Term{Leaf: name, W: w} }
-func SymSort(name, sort string) *Term       { return &Term{Leaf: name, W: -1, Sort: sort} }
-func (t *Term) IsConst() bool               { return t.C != nil }
-func (t *Term) IsTrue() bool                { return t.W == 0 && t.C != nil && t.C.Sign() != 0 }
-func (t *Term) IsFalse() bool               { return t.W == 0 && t.C != nil && t.C.Sign() == 0 }
-func (t *Term) Uint() uint64                { return t.C.Uint64() }
+func Sym(name string, w int) *Term    { return &Term{Leaf: name, W: w} }
+func SymSort(name, sort string) *Term { return &Term{Leaf: name, W: -1, Sort: sort} }
+func (t *Term) IsConst() bool         { return t.C != nil }
+func (t *Term) IsTrue() bool          { return t.W == 0 && t.C != nil && t.C.Sign() != 0 }
+func (t *Term) IsFalse() bool         { return t.W == 0 && t.C != nil && t.C.Sign() == 0 }
+func (t *Term) Uint() uint64          { return t.C.Uint64() }
 func (t *Term) signedVal() *big.Int {
 	v := new(big.Int).Set(t.C)
 	if t.W > 0 && v.Bit(t.W-1) == 1 {
@@ -865,7 +865,6 @@ func sortOf(t *Term) string {
 	return t.Sort
 }
 
-
 // Forall builds a universally quantified formula over a 64-bit bound variable.
 func Forall(bv, body *Term) *Term {
 	return &Term{Op: "forall", Args: []*Term{bv, body}, W: 0, hasQ: true}
@@ -873,7 +872,6 @@ func Forall(bv, body *Term) *Term {
 
 // BoundVar makes a fresh quantifier-bound variable; terms that mention it are never abbreviated.
 func BoundVar(name string, w int) *Term { return &Term{Leaf: name, W: w, hasBound: true} }
-
 
 // subst replaces the leaf symbol name by repl throughout t.
 func subst(t *Term, name string, repl *Term) *Term {
